@@ -159,6 +159,20 @@ type Listener struct {
 
 	hadTimeout   bool
 	sigAtTimeout uint64
+
+	// AcceptErrLog records every injected accept failure (Config.AcceptErrPct).
+	AcceptErrLog []AcceptErrRec
+	accGen       int
+}
+
+// AcceptErrRec is one injected failure of Accept.
+type AcceptErrRec struct {
+	Seq     uint64
+	At      time.Duration
+	Errno   string
+	Blocked bool
+	// OpenConn: accepted connections whose server end was open at that moment.
+	OpenConn int
 }
 
 // AcceptRec is one call of Accept.
@@ -510,6 +524,15 @@ func (k *Kernel) accept(t *Task, l *Listener) {
 		k.acceptTimeout(t, l)
 		return
 	}
+	// injected failure of accept(2): at once ...
+	late := false
+	if k.cfg.AcceptErrPct > 0 && k.acceptErrs < max(1, k.cfg.AcceptErrMax) && k.Draw(100) >= 100-k.cfg.AcceptErrPct {
+		if k.Draw(2) == 0 {
+			k.acceptFail(t, l, false)
+			return
+		}
+		late = true
+	}
 	if len(l.backlog) > 0 {
 		k.handOver(t, l)
 		return
@@ -517,8 +540,35 @@ func (k *Kernel) accept(t *Task, l *Listener) {
 	l.acceptor = t
 	l.AcceptBlocked = true
 	l.AcceptSince = k.step
+	l.accGen++
 	t.blocked = Sf("accept L%d", l.ID)
 	k.armAcceptDeadline(l)
+	if late {
+		// ... or after the caller has been blocked for a while
+		gen := l.accGen
+		d := time.Duration(1+k.Draw(5000)) * time.Microsecond
+		k.At(time.Now().Add(d), Sf("accept-fault L%d", l.ID), func() {
+			if l.accGen != gen || l.acceptor != t || l.Closed || k.acceptErrs >= max(1, k.cfg.AcceptErrMax) {
+				return
+			}
+			l.acceptor = nil
+			l.AcceptBlocked = false
+			l.dlGen++
+			k.acceptFail(t, l, true)
+		})
+	}
+}
+
+// acceptFail completes a call of Accept with an injected temporary error that is not a timeout.
+func (k *Kernel) acceptFail(t *Task, l *Listener, blocked bool) {
+	e := []errno{eMfile, eNfile, eConnAborted}[k.Draw(3)]
+	k.acceptErrs++
+	name := map[errno]string{eMfile: "EMFILE", eNfile: "ENFILE", eConnAborted: "ECONNABORTED"}[e]
+	l.AcceptErrLog = append(l.AcceptErrLog, AcceptErrRec{k.step, k.Elapsed(), name, blocked, k.openAccepted(l)})
+	k.Fault(Sf("accept_error[%s,blocked=%v,open=%v]", name, blocked, k.openAccepted(l) > 0))
+	k.trace("accept L%d fails %s", l.ID, name)
+	k.progressed()
+	k.complete(t, result{err: e})
 }
 
 func (k *Kernel) acceptTimeout(t *Task, l *Listener) {
@@ -1187,6 +1237,12 @@ func mkerr(op string, e errno) error {
 		return io.EOF
 	case eTimeout:
 		return &net.OpError{Op: op, Net: "sim", Err: os.ErrDeadlineExceeded}
+	case eMfile:
+		return &net.OpError{Op: op, Net: "sim", Err: os.NewSyscallError("accept4", syscall.EMFILE)}
+	case eNfile:
+		return &net.OpError{Op: op, Net: "sim", Err: os.NewSyscallError("accept4", syscall.ENFILE)}
+	case eConnAborted:
+		return &net.OpError{Op: op, Net: "sim", Err: os.NewSyscallError("accept4", syscall.ECONNABORTED)}
 	case eClosed, eDrain:
 		return &net.OpError{Op: op, Net: "sim", Err: net.ErrClosed}
 	case eReset:
